@@ -575,3 +575,21 @@ def r04_9(ctx):
     else:
         ctx.ok("Build: done() returns only past the explicit flush (or with an error raised before it)", site=ctx.site(dn, fl[0]))
 
+
+@rule("C04", "R04.10", floor=1)
+def r04_10(ctx):
+    """a missing include is a failure: try_resolve is asked to CREATE a missing path only by the temp writer — anywhere else (the include
+    arm, a dependency lookup) `create` would turn "file not found" into an empty file and a successful run"""
+    lib = ctx.lib
+    wt = body(ctx, "write_temp_file")
+    cs = C.all_call_sites(lib, lambda ns, t: ROLE["try_resolve"] in ns)
+    if not cs:
+        ctx.anchor_missing("call of try_resolve")
+    for (b, bb, t) in cs:
+        v = C.op_const(t["args"][2]) if len(t["args"]) > 2 else None
+        if b is wt or v == "false":
+            ctx.ok("try_resolve(_, %s)|%s" % (v, b.name), site=ctx.site(b, bb))
+        else:
+            ctx.violation([b.name, "resolve-creates"], "try_resolve is called with create = %s outside the temp writer: a path that does not exist is "
+                          "created instead of being reported" % v, site=ctx.site(b, bb))
+
